@@ -23,10 +23,52 @@ def run(chk):
     comp = chk.anchor("C17.anchor/compile", f.fn("compile", "rssl", path_contains="compile::compile"), "rssl::compile")
     bp = chk.anchor("C17.anchor/build_pipeline", f.fn("build_pipeline", "rssl"), "build_pipeline")
     if comp and bp:
-        rule_select(chk, comp, bp)
+        if not rule_select_eval(chk, comp):
+            rule_select(chk, comp, bp)
     if bp:
         rule_isolate(chk, bp)
     rule_dup(chk)
+
+def rule_select_eval(chk, comp):
+    """compile() walked with scripted stages (compilemodel.py) on selection scenarios: which pipelines are handed to
+    build_pipeline, in which order, and what is returned - for no name / a present name / an absent name / no pipelines /
+    no-pipeline mode, on every target. True when readable."""
+    import compilemodel as CMP
+    f = chk.facts
+    targets = f.variants("Target", "rssl") or ["HlslForDirectX"]
+    SC = [
+        ("all", dict(), ("Ok", ["A", "B", "C"]), ["A", "B", "C"]),
+        ("by-name", dict(pipeline_name="B"), ("Ok", ["B"]), ["B"]),
+        ("by-name-first", dict(pipeline_name="A"), ("Ok", ["A"]), ["A"]),
+        ("by-name-last", dict(pipeline_name="C"), ("Ok", ["C"]), ["C"]),
+        ("absent-name", dict(pipeline_name="Z"), ("Err", "Text"), []),
+        ("no-pipelines", dict(pipelines=()), ("Err", "Text"), []),
+        ("no-pipelines-by-name", dict(pipelines=(), pipeline_name="A"), ("Err", "Text"), []),
+        ("no-pipeline-mode", dict(no_pipeline_mode=True), ("Ok", [None]), [None]),
+        ("no-pipeline-mode-empty", dict(pipelines=(), no_pipeline_mode=True), ("Ok", [None]), [None]),
+        ("single", dict(pipelines=("A",)), ("Ok", ["A"]), ["A"]),
+        ("export-error", dict(fail="build_pipeline"), ("Err", "Text"), ["A"]),
+    ]
+    for name, kw, want, want_built in SC:
+        bad = None
+        for tgt in targets:
+            r = CMP.run_compile(f, comp, CMP.Scenario(target=tgt, **kw))
+            if r.result[0] == "unreadable":
+                chk.note("C17.select: compile() is not readable (%s); the shape rules decide" % r.result[1])
+                return False
+            got = r.result[:2] if r.result[0] == "Err" else r.result
+            if r.result[0] == "aborts":
+                bad = bad or "%s: compile aborts (%s)" % (tgt, r.result[1])
+            elif got != want or r.built != want_built:
+                bad = bad or "%s: pipelines %s, requested %s%s: build_pipeline is called for %s and compile returns %s; must build %s and return %s" % (
+                    tgt, list(kw.get("pipelines", ("A", "B", "C"))), kw.get("pipeline_name"), ", no-pipeline mode" if kw.get("no_pipeline_mode") else "", r.built, r.result, want_built, want)
+        chk.ob("C17.select/model/" + name, bad is None, "%d targets: builds %s, returns %s" % (len(targets), want_built, want) if bad is None else bad, where(comp),
+               sample={"scenario": name, "targets": len(targets)})
+    for k_, txt in (("C17.select/source-order", "source order"), ("C17.select/skip-iff-other-name", "skip iff another name is requested"), ("C17.select/passes-loop-pipeline", "the selected pipeline is the one built"),
+                    ("C17.select/no-pipeline-mode", "no-pipeline mode builds once with no pipeline"), ("C17.select/missing-pipeline-errors", "missing pipelines are errors"),
+                    ("C17.select/returns-all-built", "everything built is returned")):
+        chk.ob(k_, True, "decided by the evaluated selection scenarios (%s)" % txt, where(comp), trivial=True)
+    return True
 
 
 def rule_select(chk, comp, bp):
